@@ -35,6 +35,10 @@ def bound(tier):
 GRIDS = [[0, 1], [0, 1, 2], [-1, 0, 1], [1, 2, 4, 8], [-3, -1, 0, 2, 5],
          [0, 0.5, 1.5, 2, 3, 4.5], [7, 8, 9, 10, 11, 12, 13], [0, 1, 2, 3, 4, 5, 6, 7],
          [-4, -3, -2, -1, 0, 1, 2, 3, 4]]
+SCALED = [([1600, 1700, 1800, 1900, 2000, 2100, 2200, 2300, 2400], 2000, 100),
+          ([0, 1000, 2000, 3000, 4000, 5000], 2500, 1000),
+          ([2451545.0 + 36525.0 * k for k in range(-3, 4)], 2451545, 36525),
+          ([0.0, 0.001, 0.002, 0.003, 0.004, 0.005, 0.006], 0, Fraction(1, 1000))]
 COEFFS = [Fraction(1), Fraction(-3), Fraction(1, 2), Fraction(2), Fraction(-1, 10),
           Fraction(1, 4), Fraction(-1, 3), Fraction(1, 7), Fraction(-1, 20)]
 
@@ -113,6 +117,21 @@ def check_table(case):
     perm = case["perm"]
     form = case["form"]
     c = poly_of_degree(k)
+    if case.get("scale"):
+        # polynomial with O(1) coefficients in u = (x - off) / sc, re-expressed exactly in x
+        off, sc = Fraction(case["scale"][0]), Fraction(case["scale"][1])
+        cx = [Fraction(0)]
+        pw = [Fraction(1)]                  # (x - off)^j / sc^j as a polynomial in x
+        for j, cj in enumerate(c):
+            if j:
+                nxt = [Fraction(0)] * (len(pw) + 1)
+                for i_, a_ in enumerate(pw):
+                    nxt[i_ + 1] += a_ / sc
+                    nxt[i_] += -off * a_ / sc
+                pw = nxt
+            cx = [(cx[i_] if i_ < len(cx) else 0) + cj * (pw[i_] if i_ < len(pw) else 0)
+                  for i_ in range(max(len(cx), len(pw)))]
+        c = cx
     dc = P.pderiv(c)
     ys_exact = [P.peval(c, x) for x in g]
     ys = [float(y) for y in ys_exact]
@@ -178,6 +197,14 @@ def table_cases():
             for perm in (ident, tuple(reversed(ident))):
                 for form in FORMS[1:]:
                     cases.append({"grid": g, "degree": k, "perm": list(perm), "form": form})
+    # widely (and very finely) spaced abscissae carrying a polynomial with O(1) coefficients in the scaled
+    # variable: the high-order divided differences are many orders of magnitude below the low-order ones
+    for g, off, sc in SCALED:
+        n = len(g)
+        ident = list(range(n))
+        for k in range(n):
+            for perm in (ident, ident[::-1], ident[1::2] + ident[0::2]):
+                cases.append({"grid": g, "degree": k, "perm": perm, "form": "lists", "scale": [off, sc]})
     return cases
 
 
@@ -245,6 +272,10 @@ ROOT_TABLES = {
              [1, 2, 3, 3.1, 3.2, 4, 5, 6, 6.2, 6.3, 7, 0.0, 8.0, 6.5]),
     "offset": ([27.0, 27.5, 28.0, 28.5, 29.0], lambda x: (x - 28.1) * (x - 26.0) * 0.3,
                [27.0, 27.4, 28.0, 28.1, 28.2, 28.9, 29.0, 26.0, 30.0, 28.05, 28.15, 27.9]),
+    "close_pair": ([0, 1, 2, 3, 4, 5], lambda x: (x - 1) * (x - 4) * (x - 4.01),
+                   [0, 0.5, 1.0, 2.5, 3.9, 3.99, 4.0, 4.005, 4.01, 4.02, 4.5, 5, -1, 6]),
+    "close_pair_neg": ([0, 1, 2, 3, 4, 5], lambda x: -(x - 1) * (x - 4) * (x - 4.01) * 3.0,
+                       [0, 0.5, 1.0, 2.5, 3.9, 3.99, 4.0, 4.005, 4.01, 4.02, 4.5, 5, -1, 6]),
     "uneven": ([-4.0, -1.0, 0.5, 1.0, 3.0, 8.0], lambda x: (x + 2) * (x - 2) * (x - 6) / 10.0,
                [-4, -3, -2.5, -1.5, 0, 1.5, 2.5, 5, 6.5, 8, -9, 12]),
 }
@@ -556,6 +587,10 @@ def observe(it):
         obs.append(it.root())
     except Exception as ex:
         obs.append(type(ex).__name__)
+    try:
+        obs.append(it.minmax())
+    except Exception as ex:
+        obs.append(type(ex).__name__)
     obs.append(len(it))
     obs.append(it.get_tolerance())
     return obs
@@ -599,6 +634,9 @@ def check_history(case):
         if before != after:
             out.append("%s.%s changed what the %s returns: %r -> %r"
                        % (who, m, other, before, after))
+        if m == "set_copy_of_other" and observe(objs[who]) != observe(objs[other]):
+            out.append("after %s.set(<the %s>) the two objects answer differently: %r vs %r"
+                       % (who, other, observe(objs[who]), observe(objs[other])))
         if m == "caller_scribbles" and observe(objs[who]) != mine:
             out.append("overwriting the lists the tables were built from changed what the %s returns: %r -> %r"
                        % (who, mine, observe(objs[who])))
